@@ -119,12 +119,39 @@ func wideNumber(v any) bool {
 	return false
 }
 
+// badHex: some "0x…" string of the reply contains a character that is no hex digit (undecodable body)
+func badHex(v any) bool {
+	switch x := v.(type) {
+	case string:
+		if strings.HasPrefix(x, "0x") {
+			for _, c := range x[2:] {
+				if !(c >= '0' && c <= '9' || c >= 'a' && c <= 'f' || c >= 'A' && c <= 'F') {
+					return true
+				}
+			}
+		}
+	case map[string]any:
+		for _, y := range x {
+			if badHex(y) {
+				return true
+			}
+		}
+	case []any:
+		for _, y := range x {
+			if badHex(y) {
+				return true
+			}
+		}
+	}
+	return false
+}
+
 func absExchange(ex simnode.Exchange) string {
 	if ex.Drop || (ex.Status != 0 && ex.Status/100 != 2) || ex.RawBody != nil {
 		return "X"
 	}
 	for _, r := range ex.Responses {
-		if wideNumber(map[string]any(r)) {
+		if wideNumber(map[string]any(r)) || badHex(map[string]any(r)) {
 			return "X"
 		}
 	}
@@ -491,6 +518,50 @@ var corruptions = []corruption{
 		}
 		return false
 	}},
+	{"non-hex-character", func(ex *simnode.Exchange, i int, r *core.Rand) bool {
+		// a payload hex string (log data, a topic, transaction input, an address) with one character that is no hex digit
+		if i >= len(ex.Responses) {
+			return false
+		}
+		var cands []func(string)
+		var vals []string
+		var visit func(v any)
+		visit = func(v any) {
+			switch x := v.(type) {
+			case map[string]any:
+				for k, y := range x {
+					if s, ok := y.(string); ok && len(s) > 4 && strings.HasPrefix(s, "0x") && (k == "data" || k == "input" || k == "address") {
+						k, x := k, x
+						cands = append(cands, func(n string) { x[k] = n })
+						vals = append(vals, s)
+					}
+					if arr, ok := y.([]any); ok && k == "topics" {
+						for ti, t := range arr {
+							if s, ok := t.(string); ok && len(s) > 4 {
+								ti, arr := ti, arr
+								cands = append(cands, func(n string) { arr[ti] = n })
+								vals = append(vals, s)
+							}
+						}
+					}
+					visit(y)
+				}
+			case []any:
+				for _, y := range x {
+					visit(y)
+				}
+			}
+		}
+		visit(map[string]any(ex.Responses[i]))
+		if len(cands) == 0 {
+			return false
+		}
+		k := r.Intn(len(cands))
+		b := []byte(vals[k])
+		b[2+r.Intn(len(b)-2)] = core.Pick(r, []byte("zgZ x"))
+		cands[k](string(b))
+		return true
+	}},
 	{"item-other-block-hash", func(ex *simnode.Exchange, i int, r *core.Rand) bool {
 		if i >= len(ex.Responses) {
 			return false
@@ -663,6 +734,9 @@ func runC07(e *core.Env) error {
 					want := honest
 					if tag == "double" {
 						verdict, want = sortLogs(verdict), sortLogs(honest)
+					}
+					if tag == "non-hex-character" {
+						verdict, want = impl, "err" // an undecodable value is refused, not zero-filled or truncated
 					}
 					if tag == "number-beyond-64-bits" {
 						// a number that is not the requested one (it differs by a multiple of 2^64) must be refused,
